@@ -66,8 +66,9 @@ CHECKS = {
             "C13_current/C13_last_call hold for every history, configuration type and evaluator, from the two premises that calls only re-bind declared properties "
             "and that the reconfiguration API keeps property cells well-bound; C13_no_hidden_state re-checks on every run that the code has no store outside the "
             "audited set (no memoised validators/helpers).  Tie: after every reconfiguration of a random history the dumped cells are checked well-bound in Coq, and "
-            "after every call the live element is compared with one freshly built from the configuration reached.",
-            "full on the model; absence of hidden state in the code rests on the translator's scan and the history oracle"),
+            "after every call the live element is compared with one freshly built from the configuration reached.  Entries inserted with dict.update / |= / setdefault bypass "
+            "_PropertyDict.__setitem__ and are bound only by the next call: those states are outside the premise (well-boundness check skipped) and decided by the oracle alone.",
+            "full on the model for assignment-style reconfiguration; update-style insertion by oracle; absence of hidden state in the code rests on the translator's scan and the history oracle"),
     "C14": ("Coq theorem over ALL schedules (any merge of the threads' bind micro-steps, and every prefix, leaves the shared store unchanged) + write-set obligation regenerated from /repo + thread stress oracle with widened race windows",
             "C14_any_schedule/C14_any_number_of_threads: the only shared writes of concurrent calls are binds of well-bound properties, which are identities, so every "
             "thread reads at every point of every interleaving what it would read alone; C14_no_shared_scratch_state re-checks on each run that no per-call state is "
